@@ -201,6 +201,18 @@ def gen():
         def mk3(c, k=k):
             return "pub fn f(world: &mut World<Registry!(A, %s)>) { world.par_query(Query::<Views!(%s)>::new()).iter.for_each(|result!(x)| touch(x)); }" % (c, vt(k, c))
         thread_prog("f7_par_query_%s" % k, "F7 par_query", mk3, "par_query with view %s" % k)
+        # Send-but-not-Sync payload (a Cell): shared views (&, Option<&>) must not cross threads, exclusive views may
+        shared = k in "ro"
+        add("f7_iter_%s_ny%s" % (k, "" if shared else "_twin"), "F7 send a query iterator to a thread (Send, not Sync payload)" + ("" if shared else " twin"), mk("NY"), "reject" if shared else "accept", "result::Iter over %s of a Cell component sent to a scoped thread" % k)
+        add("f7_entries_%s_ny%s" % (k, "" if shared else "_twin"), "F7 send an Entries handle to a thread (Send, not Sync payload)" + ("" if shared else " twin"), mk2("NY"), "reject" if shared else "accept", "query::Entries with entry view %s of a Cell component sent to a scoped thread" % k)
+        add("f7_par_query_%s_ny%s" % (k, "" if shared else "_twin"), "F7 par_query (Send, not Sync payload)" + ("" if shared else " twin"), mk3("NY"), "reject" if shared else "accept", "par_query with view %s of a Cell component" % k)
+        def mk2b(c, k=k):
+            # the handle is shared by reference between two threads (needs Entries: Sync)
+            return ("pub fn f(world: &mut World<Registry!(A, %s)>) { let res = world.query(Query::<Views!(), filter::None, Views!(), Views!(%s)>::new()); let en = &res.entries; "
+                    "std::thread::scope(|s| { s.spawn(move || { touch(en); }); }); }") % (c, vt(k, c))
+        thread_prog("f7_entries_shared_%s" % k, "F7 share an Entries handle between threads", mk2b, "&query::Entries with entry view %s used from a scoped thread" % k)
+        if shared:
+            add("f7_entries_shared_%s_ny" % k, "F7 share an Entries handle between threads (Send, not Sync payload)", mk2b("NY"), "reject", "&query::Entries with entry view %s of a Cell component used from a scoped thread" % k)
     for k in "rw":
         def mk(c, k=k):
             r = "RNS" if c == "NS" else "ROK"
@@ -247,6 +259,9 @@ def gen():
     for what in ("views", "res", "entry", "field"):
         for par in (False, True):
             thread_prog("f7_sched_%s_%s" % (what, "par" if par else "seq"), "F7 schedule task", lambda c, what=what, par=par: sched(c, what, par), "schedule task whose %s are not thread safe" % what)
+    for par in (False, True):
+        add("f7_sched_views_%s_ny" % ("par" if par else "seq"), "F7 schedule task (Send, not Sync payload)", sched("NY", "views", par), "reject", "schedule task with a shared view of a Cell component")
+        add("f7_sched_entry_%s_ny" % ("par" if par else "seq"), "F7 schedule task (Send, not Sync payload)", sched("NY", "entry", par), "reject", "schedule task with a shared entry view of a Cell component")
     def parsys(c):
         return system_prog(True, "Views!(&'a %s)" % c, "Views!()", "Views!()", "u32", c, "") + "pub fn f(world: &mut World<Registry!(A, %s)>) { world.run_par_system(&mut S(1)); }" % c
     thread_prog("f7_run_par_system", "F7 run_par_system", parsys, "ParSystem viewing a non-thread-safe component")
